@@ -22,8 +22,8 @@ func init() {
 
 	addVariants(
 		Variant{ID: "c13-r3-rejects-empty-at-end", Prop: "C13", File: "replication/binlog_event_rbr.go",
-			Old: "\t\tif metadata > 255 {\n\t\t\tl := int(uint64(data[pos]) |\n\t\t\t\tuint64(data[pos+1])<<8)\n\t\t\treturn data[pos+2 : pos+2+l], l + 2, nil",
-			New: "\t\tif metadata > 255 {\n\t\t\tif pos+2 >= len(data) {\n\t\t\t\treturn nil, 0, fmt.Errorf(\"truncated\")\n\t\t\t}\n\t\t\tl := int(uint64(data[pos]) |\n\t\t\t\tuint64(data[pos+1])<<8)\n\t\t\treturn data[pos+2 : pos+2+l], l + 2, nil",
+			Old:    "\t\tif metadata > 255 {\n\t\t\tl := int(uint64(data[pos]) |\n\t\t\t\tuint64(data[pos+1])<<8)\n\t\t\treturn data[pos+2 : pos+2+l], l + 2, nil",
+			New:    "\t\tif metadata > 255 {\n\t\t\tif pos+2 >= len(data) {\n\t\t\t\treturn nil, 0, fmt.Errorf(\"truncated\")\n\t\t\t}\n\t\t\tl := int(uint64(data[pos]) |\n\t\t\t\tuint64(data[pos+1])<<8)\n\t\t\treturn data[pos+2 : pos+2+l], l + 2, nil",
 			Expect: "C13-R3 accepts@TypeVar"},
 		Variant{ID: "c13-r3-rejects-content", Prop: "C13", File: "replication/binlog_event_rbr.go",
 			Old: "\t\tl := int(data[pos])\n\t\treturn data[pos+1 : pos+1+l], l + 1, nil\n\n\tcase TypeBit:", New: "\t\tl := int(data[pos])\n\t\tif l > 0 && data[pos+1] == 0 {\n\t\t\treturn nil, 0, fmt.Errorf(\"NUL in text\")\n\t\t}\n\t\treturn data[pos+1 : pos+1+l], l + 1, nil\n\n\tcase TypeBit:",
